@@ -84,6 +84,14 @@ type sizes struct {
 
 // ctorCase: members -> NewMemberRaw -> New -> String -> Parse, and Inject -> Extract.
 // Every key in ms is an RFC 7230 token, every value valid UTF-8 (the stated domain).
+// accessorsAgree reports what snap saw of Members() / Member(key) / Len() disagreeing in this case.
+func (c *c11) accessorsAgree(desc func() any) {
+	if len(c11AccessorMismatch) > 0 {
+		c.r.FailHere("accessors|Member / Len disagree with Members", desc(), "%s", strings.Join(c11AccessorMismatch, "; "))
+		c11AccessorMismatch = nil
+	}
+}
+
 func (c *c11) ctorCase(ms []rmem, label string) (sz sizes) {
 	r := c.r
 	r.Eval()
@@ -96,6 +104,7 @@ func (c *c11) ctorCase(ms []rmem, label string) (sz sizes) {
 		return d
 	}
 	defer c.guard(&stage, desc)()
+	defer c.accessorsAgree(desc)
 
 	mem := make([]baggage.Member, len(ms))
 	for i, m := range ms {
@@ -426,8 +435,30 @@ func (c *c11) parseCase(s string, expect int, label, detail string) {
 		return d
 	}
 	defer c.guard(&stage, desc)()
+	defer c.accessorsAgree(desc)
 
 	b, err := baggage.Parse(s)
+	// the same bytes through the propagator, into a context that already carries baggage: a header
+	// that does not parse (or is absent / empty) leaves that baggage in place, one that parses replaces it
+	if s != "" {
+		prior, perr := baggage.Parse("zz-prior=1;p=q")
+		if perr != nil {
+			panic(perr)
+		}
+		for _, car := range []propagation.TextMapCarrier{propagation.MapCarrier{"baggage": s}, propagation.HeaderCarrier(http.Header{"Baggage": []string{s}})} {
+			out := baggage.FromContext(c.prop.Extract(baggage.ContextWithBaggage(context.Background(), prior), car))
+			want := snap(prior)
+			if err == nil && b.Len() > 0 {
+				want = snap(b)
+			}
+			if a := diff(want, snap(out)); a != "" && !(err == nil && b.Len() == 0) {
+				r.FailHere("extract-of-arbitrary-header|"+a+" differs", desc(), "Extract of header %s into a context holding %s gives %s; Parse says err=%v, %s", abbr(s), prior.String(), canonAll(snap(out), true), err, canonAll(want, true))
+			}
+			if now := snap(baggage.FromContext(baggage.ContextWithBaggage(context.Background(), prior))); diff(snap(prior), now) != "" {
+				r.FailHere("extract-alters-the-baggage-of-the-parent-context", desc(), "the baggage the parent context held changed")
+			}
+		}
+	}
 	if err != nil {
 		r.Outcome("reject|" + errClass(err))
 		if expect == expAccept {
